@@ -77,3 +77,6 @@ def run(ctx):
     # rules shared after round 11: the clause is necessary for this property as well
     FE.e12_cache_before_recompute(ctx)
     ctx.floor("E12", 1)
+    from ..engines import mapplumbing as M2B
+    M2B.m2b_reverse_rule_children(ctx)
+    ctx.floor("M2", 2)
